@@ -34,9 +34,11 @@ import (
 
 	"github.com/skycoin/skycoin/src/cipher"
 	"github.com/skycoin/skycoin/src/cipher/bip39"
+	"github.com/skycoin/skycoin/src/cipher/bip44"
 	"github.com/skycoin/skycoin/src/cipher/crypto"
 	"github.com/skycoin/skycoin/src/cipher/encrypt"
 	secp256k1 "github.com/skycoin/skycoin/src/cipher/secp256k1-go"
+	"github.com/skycoin/skycoin/src/util/logging"
 	"github.com/skycoin/skycoin/src/wallet"
 	"github.com/skycoin/skycoin/src/wallet/bip44wallet"
 	"github.com/skycoin/skycoin/src/wallet/collection"
@@ -1278,9 +1280,264 @@ func runXpub(o *Out, r *Rng, n int, caseJSON map[string][]map[string]interface{}
 	return nil
 }
 
+
+// ---------------------------------------------------------------- wallet.Service
+
+// runService drives a real wallet.Service on a temporary wallet directory with
+// ENCRYPTED wallets of every type that can be encrypted, through the service calls
+// that modify or open wallets (NewAddresses, ScanAddresses, UpdateSecrets,
+// UpdateWalletLabel, GetWalletSeed, ViewSecrets; right and wrong passwords), and
+// checks after every call: (a) the in-memory locked wallet's serialisation and
+// the wallet file contain no secret and every secret field is blank, (b) Unlock
+// with the right password restores a secret for every entry (new ones included)
+// and every entry verifies, (c) a wrong password is refused and changes nothing.
+func runService(o *Out, r *Rng, n int, hist Hist, caseJSON map[string][]map[string]interface{}) error {
+	dir, err := os.MkdirTemp("", "c18svc")
+	if err != nil {
+		return err
+	}
+	defer os.RemoveAll(dir)
+	bc := bip44.CoinTypeSkycoin
+	serv, err := wallet.NewService(wallet.Config{WalletDir: dir, CryptoType: crypto.CryptoTypeSha256Xor,
+		EnableWalletAPI: true, EnableSeedAPI: true, Bip44Coin: &bc})
+	if err != nil {
+		return err
+	}
+	var items []string
+	for i := 0; i < n; i++ {
+		typ := []string{wallet.WalletTypeCollection, wallet.WalletTypeDeterministic, wallet.WalletTypeBip44}[i%3]
+		ct := crypto.CryptoTypeSha256Xor
+		if i%4 == 3 {
+			ct = crypto.CryptoTypeScryptChacha20poly1305Insecure
+		}
+		pw := []byte("pw-" + asciiWord(r, 8))
+		wrong := []byte("no-" + asciiWord(r, 8))
+		opt := wallet.Options{Type: typ, Label: "c18svc", Encrypt: true, Password: pw, CryptoType: ct}
+		known := map[string]bool{} // secrets the harness itself supplied
+		newKeys := func(k int) []cipher.SecKey {
+			var ks []cipher.SecKey
+			for ; k > 0; k-- {
+				_, sk, _ := cipher.GenerateDeterministicKeyPair(r.Bytes(32))
+				ks = append(ks, sk)
+				known[sk.Hex()] = true
+			}
+			return ks
+		}
+		switch typ {
+		case wallet.WalletTypeDeterministic:
+			opt.Seed = "seed-" + asciiWord(r, 20)
+			opt.GenerateN = uint64(1 + r.Intn(3))
+			known[opt.Seed] = true
+		case wallet.WalletTypeBip44:
+			mn, err := bip39.NewMnemonic(r.Bytes(16))
+			if err != nil {
+				return err
+			}
+			opt.Seed = mn
+			opt.GenerateN = uint64(1 + r.Intn(3))
+			known[mn] = true
+			if r.Bool() {
+				opt.SeedPassphrase = "pp-" + asciiWord(r, 12)
+				known[opt.SeedPassphrase] = true
+			}
+		default:
+			opt.CollectionPrivateKeys = newKeys(1 + r.Intn(3))
+		}
+		id := fmt.Sprintf("c18svc%d.wlt", i)
+		if _, err := serv.CreateWallet(id, opt); err != nil {
+			return fmt.Errorf("service CreateWallet(%s): %v", typ, err)
+		}
+		leakMem, leakFile, restoreOK, wrongRefused, panicked := false, false, true, true, false
+		firstBad := ""
+		var opsDone []string
+		entriesLen := func() int {
+			w, err := serv.GetWallet(id)
+			if err != nil {
+				return -1
+			}
+			l, _ := w.EntriesLen()
+			return l
+		}
+		check := func(op string) error {
+			w, err := serv.GetWallet(id)
+			if err != nil {
+				return err
+			}
+			bad := func(what string) {
+				if firstBad == "" {
+					firstBad = op + ": " + what
+				}
+			}
+			if !w.IsEncrypted() {
+				restoreOK = false
+				bad("wallet no longer encrypted")
+				return nil
+			}
+			// (b) unlock restores every secret
+			secrets := []string{}
+			for k := range known {
+				secrets = append(secrets, k)
+			}
+			u, err := w.Unlock(pw)
+			if err != nil {
+				restoreOK = false
+				bad("Unlock with the right password failed: " + err.Error())
+			} else {
+				us, err := snapshot(u)
+				if err != nil {
+					return err
+				}
+				secrets = append(secrets, us.secretsList()...)
+				es, _ := u.GetEntries()
+				if typ == wallet.WalletTypeBip44 {
+					es, _ = u.GetEntries(wallet.OptionExternal())
+					ces, _ := u.GetEntries(wallet.OptionChange())
+					es = append(es, ces...)
+				}
+				ll, _ := w.EntriesLen()
+				if len(es) != ll {
+					restoreOK = false
+					bad("entry count differs after Unlock")
+				}
+				for _, e := range es {
+					e := e
+					if e.Secret.Null() || e.Verify() != nil {
+						restoreOK = false
+						bad("entry without a valid secret after Unlock")
+					}
+				}
+			}
+			// (a) no secret in the locked wallet, in memory and on disk
+			ls, err := snapshot(w)
+			if err != nil {
+				return err
+			}
+			for _, f := range ls.secretsList() {
+				if f != "" {
+					leakMem = true
+					bad("secret field not blank in the locked wallet")
+				}
+			}
+			fileBytes, err := os.ReadFile(filepath.Join(dir, id))
+			if err != nil {
+				return err
+			}
+			for _, sec := range secrets {
+				if len(sec) < 8 {
+					continue
+				}
+				if bytes.Contains(ls.raw, []byte(sec)) {
+					leakMem = true
+					bad("secret in the serialised locked wallet")
+				}
+				if bytes.Contains(fileBytes, []byte(sec)) {
+					leakFile = true
+					bad("secret in the wallet file")
+				}
+			}
+			return nil
+		}
+		if err := check("CreateWallet"); err != nil {
+			return err
+		}
+		for k := 3 + r.Intn(4); k > 0; k-- {
+			usePw, isWrong := pw, r.Chance(30)
+			if isWrong {
+				usePw = wrong
+			}
+			before := entriesLen()
+			var e error
+			op := ""
+			mustRefuse := isWrong
+			p := Guard(func() {
+				switch x := r.Intn(10); {
+				case x < 5:
+					op = "NewAddresses"
+					if typ == wallet.WalletTypeCollection {
+						_, e = serv.NewAddresses(id, usePw, wallet.OptionCollectionPrivateKeys(newKeys(1+r.Intn(2))))
+					} else {
+						_, e = serv.NewAddresses(id, usePw, wallet.OptionGenerateN(uint64(1+r.Intn(3))))
+						if typ == wallet.WalletTypeBip44 {
+							mustRefuse = false // bip44 derives publicly, the password is not used
+						}
+					}
+				case x < 7:
+					op = "ScanAddresses"
+					switch typ {
+					case wallet.WalletTypeBip44:
+						_, e = serv.ScanAddresses(id, nil, uint64(1+r.Intn(3)), svcFinder{})
+						mustRefuse, isWrong = false, false
+					case wallet.WalletTypeCollection:
+						_, e = serv.ScanAddresses(id, usePw, 2, svcFinder{})
+						e, mustRefuse = nil, false // not supported for collection wallets: an error either way
+					default:
+						_, e = serv.ScanAddresses(id, usePw, uint64(1+r.Intn(3)), svcFinder{})
+					}
+				case x < 8:
+					op = "UpdateSecrets"
+					e = serv.UpdateSecrets(id, usePw, func(w wallet.Wallet) error { return nil })
+				case x < 9:
+					op = "GetWalletSeed+ViewSecrets"
+					if typ != wallet.WalletTypeCollection {
+						_, _, e = serv.GetWalletSeed(id, usePw)
+					}
+					if e == nil {
+						e = serv.ViewSecrets(id, usePw, func(w wallet.Wallet) error { return nil })
+					}
+				default:
+					op = "UpdateWalletLabel"
+					e = serv.UpdateWalletLabel(id, "label-"+asciiWord(r, 5))
+					mustRefuse, isWrong = false, false
+				}
+			})
+			tag := op
+			if isWrong {
+				tag += "(wrong password)"
+			}
+			opsDone = append(opsDone, tag)
+			hist.Add("service:" + typ + ":" + tag)
+			if p {
+				panicked = true
+			}
+			if mustRefuse && (e == nil || entriesLen() != before) {
+				wrongRefused = false
+				if firstBad == "" {
+					firstBad = tag + ": wrong password accepted"
+				}
+			}
+			if !mustRefuse && !isWrong && e != nil && op != "ScanAddresses" {
+				restoreOK = false
+				if firstBad == "" {
+					firstBad = tag + ": failed with the right password: " + e.Error()
+				}
+			}
+			if err := check(tag); err != nil {
+				return err
+			}
+		}
+		items = append(items, Tuple(B(panicked), B(leakMem), B(leakFile), B(restoreOK), B(wrongRefused)))
+		caseJSON["service"] = append(caseJSON["service"], map[string]interface{}{
+			"type": typ, "crypto": string(ct), "ops": strings.Join(opsDone, ", "), "first_failure": firstBad})
+		o.Count("service"+typ+strings.Join(opsDone, ",")+fmt.Sprint(i), true)
+	}
+	o.Def("cases_service", "bool * bool * bool * bool * bool", items)
+	return nil
+}
+
+type svcFinder struct{}
+
+func (svcFinder) AddressesActivity(addrs []cipher.Addresser) ([]bool, error) {
+	out := make([]bool, len(addrs))
+	if len(out) > 0 {
+		out[0] = true
+	}
+	return out, nil
+}
+
 // ---------------------------------------------------------------- main
 
 func run(args []string) error {
+	logging.Disable()
 	f := ParseFlags("c18", args)
 	if f.Extra == "child" {
 		return child()
@@ -1303,6 +1560,13 @@ func run(args []string) error {
 		return err
 	}
 	if err := runXpub(o, r, 4, caseJSON); err != nil {
+		return err
+	}
+	ns := nw / 2
+	if ns < 12 {
+		ns = 12
+	}
+	if err := runService(o, r, ns, hist, caseJSON); err != nil {
 		return err
 	}
 
